@@ -166,6 +166,11 @@ func (mem *Mempool) Update(height int64, txs []types.Tx) {
 	mem.Lock()
 	// Remove transactions that are already in txs, also re-run txs through filters
 	mem.refreshMempoolTxs(txsMap)
+	// Remember what has been committed, so that a transaction a block already
+	// contained is neither accepted nor offered for inclusion again.
+	for _, tx := range txs {
+		mem.cache.Push(tx)
+	}
 	mem.Unlock()
 }
 
